@@ -1,6 +1,7 @@
 package props
 
 import (
+	"go/constant"
 	"fmt"
 	"go/token"
 	"go/types"
@@ -225,6 +226,19 @@ func (c *Ctx) rangeObligations(eng *ranges.Engine, funcs map[*ssa.Function]bool,
 						}
 					}
 				case *ssa.Panic:
+					// go/ssa instruments range-over-func loops with two internal consistency panics
+					// (a yield called after the loop ended, an iterator that swallowed a panic); they
+					// have no source position and guard the iterator protocol, not input
+					if !x.Pos().IsValid() {
+						if k, ok := x.X.(*ssa.MakeInterface); ok {
+							if kc, ok := k.X.(*ssa.Const); ok && kc.Value != nil && kc.Value.Kind() == constant.String {
+								msg := constant.StringVal(kc.Value)
+								if strings.HasPrefix(msg, "iterator call did not preserve panic") || strings.HasPrefix(msg, "yield function called after range loop exit") {
+									continue
+								}
+							}
+						}
+					}
 					st.panics++
 					add("PANIC", fn, "panic("+addrExpr(x.X)+")", report.Violated, ins, "explicit panic reachable from an entry point")
 				}
